@@ -400,6 +400,31 @@ fn op_append(pre: Pre) {
     std::mem::forget(r);
     x.done();
 }
+/// APPEND k "" (empty value): creates an empty string on a missing key, leaves a string as it is
+fn op_append_empty(pre: Pre) {
+    let x = env(pre);
+    let r = x.e.append(0, KA.to_vec(), Vec::new());
+    kani::cover!(true, "append returned");
+    match (pre, &r) {
+        (Pre::Absent, Ok(n)) => {
+            assert!(*n == 0, "APPEND k \"\" on a missing key returns 0");
+            let s = x.str_now();
+            assert!(matches!(&s, Some(b) if b.len() == 0), "APPEND k \"\" on a missing key creates the key as an empty string");
+            x.post(true);
+        }
+        (Pre::Str2, Ok(n)) => {
+            assert!(*n == 2, "APPEND k \"\" returns the unchanged length");
+            let s = x.str_now();
+            assert!(matches!(&s, Some(b) if b.len() == 2 && b[0] == x.c[0] && b[1] == x.c[1]), "APPEND k \"\" keeps the value");
+            x.post(false);
+        }
+        _ => assert!(false, "APPEND k \"\" refused on an absent/string key"),
+    }
+    std::mem::forget(r);
+    x.done();
+}
+eng_harness!(c01_append_empty_absent, 5, { op_append_empty(Pre::Absent); });
+eng_harness!(c01_append_empty_str, 5, { op_append_empty(Pre::Str2); });
 eng_harness!(c01_append_absent, 5, { op_append(Pre::Absent); });
 eng_harness!(c01_append_str, 5, { op_append(Pre::Str2); });
 eng_harness!(c01_append_list, 5, { op_append(Pre::List1); });
@@ -1247,6 +1272,26 @@ fn op_set_basic(which: bool) {
     kani::cover!(!member, "x is not a member");
     std::mem::forget(e);
 }
+/// SADD of two members (possibly equal) to a MISSING key: the key is created, the reply counts each
+/// distinct member once.
+eng_harness_vec!(c03_sadd_absent, 6, {
+    let e = mk_engine1();
+    let base = e.register_watch(0, KA).ok().unwrap();
+    let x: u8 = kani::any();
+    let y: u8 = kani::any();
+    let r = e.sadd(0, KA.to_vec(), vec![vec![x], vec![y]]);
+    kani::cover!(x == y, "the same member twice in one SADD");
+    if x == y {
+        assert!(matches!(r, Ok(1)), "SADD on a missing key counts a repeated member once");
+        assert!(set_is(&e, &[x], 1), "SADD creates the set with the member");
+    } else {
+        assert!(matches!(r, Ok(2)), "SADD on a missing key counts both members");
+        assert!(set_is(&e, &[x, y], 2), "SADD creates the set with both members");
+    }
+    assert!(matches!(e.scard(0, KA), Ok(n) if n == if x == y { 1 } else { 2 }), "SCARD agrees with the reply");
+    assert!(e.was_modified_since(0, KA, base).ok().unwrap(), "C08: SADD must be reported");
+    std::mem::forget(e);
+});
 eng_harness_vec!(c03_set_sadd, 6, { op_set_basic(true); });
 eng_harness_vec!(c03_set_srem, 6, { op_set_basic(false); });
 
